@@ -766,7 +766,7 @@ class ProjectData(sc.prettyobj):
         pop_names = [name for name, pop_spec in self.pops.items() if pop_spec["type"] == pop_type]
 
         # Here, need to list all relevant populations
-        new_transfer = TimeDependentConnections(code_name, full_name, self.tvec, from_pops=pop_names, to_pops=pop_names, interpop_type="transfer", ts=None, from_pop_type=pop_type, to_pop_type=pop_type)
+        new_transfer = TimeDependentConnections(code_name, full_name, self.tvec, from_pops=pop_names, to_pops=list(pop_names), interpop_type="transfer", ts=None, from_pop_type=pop_type, to_pop_type=pop_type)
         new_transfer.write_units = True
         new_transfer.write_assumption = True
         new_transfer.write_uncertainty = True
